@@ -253,6 +253,110 @@ def update_obligations(rep, eng, tier):
 KEYS = ["a", "A", "b", "B", "ß", b"a", "Ab", "aB"]
 
 
+class VItems(E.V):
+    """`m.items()` of a map view / `dict(m.items())`: the content (key -> value) of that view, order forgotten"""
+
+    def __init__(self, arr):
+        self.arr = arr
+
+
+dict_eq = z3.Function("dict_equal", z3.ArraySort(E.S, E.OptRef), z3.ArraySort(E.S, E.OptRef), E.B)       # ASSUMED: dict == dict
+upper_content = z3.Function("upper_cased_content_of", E.Ref, z3.ArraySort(E.S, E.OptRef))                # ASSUMED: CaselessDict(mapping)
+
+
+def eq_obligations(rep, tier):
+    """CaselessDict.__eq__: reflexive by identity; False (never an exception) for non-mappings; for mappings the answer is dict
+    equality of the two CONTENTS (insertion order plays no role); a plain mapping is compared through its upper-cased content"""
+    from vc.pyvc import compare
+    fn = "caselessdict:CaselessDict.__eq__"
+    mod, node = source.find(fn)
+    if node is None:
+        return [Obligation(f"{PID}.__eq__", fn, "z3", UNDECIDED, detail="function not found")]
+    T = TIMEOUT_MS[tier]
+    lines = source.lines_of(node)
+    eng = make_engine()
+    L = eng.lat
+    for c, bases in (("Mapping", ["object"]), ("dict", ["Mapping"])):
+        if c not in L.ids:
+            L.add(c, bases)
+    if "Mapping" not in L.bases.get("CaselessDict", []):
+        L.bases.setdefault("CaselessDict", []).append("Mapping")
+    rep.functions.add(fn)
+    other = z3.Const("other", E.Ref)
+    other_arr = z3.Const("content_of_other", z3.ArraySort(E.S, E.OptRef))
+
+    def items(engine, s, args, kw):
+        o = args[0]
+        if isinstance(o, E.VMap):
+            return [(s, VItems(s.heap[o.addr].arr))]
+        return [(s, VItems(z3.If(engine.lat.isinstance_z(o.z, ["CaselessDict"]), other_arr, upper_content(o.z))))]
+    eng.contracts["CaselessDict.items"] = items
+    eng.contracts["ref.items"] = items
+    saved_dict = E.BUILTINS.get("dict")
+    E.BUILTINS["dict"] = lambda e, s, a, k: [(s, a[0])] if a and isinstance(a[0], VItems) else (_ for _ in ()).throw(E.Undecided("dict(...)"))
+    eng.globals["dict"] = E.VBuiltin("dict")
+    base_eq = eng.py_eq
+
+    def py_eq(a, b, s):
+        if isinstance(a, VItems) and isinstance(b, VItems):
+            s.assume(z3.Implies(a.arr == b.arr, dict_eq(a.arr, b.arr)))
+            return dict_eq(a.arr, b.arr)
+        return base_eq(a, b, s)
+    eng.py_eq = py_eq
+
+    def new_caseless(engine, s, args, kw):
+        # CaselessDict(mapping): its upper-cased content, or AttributeError / TypeError for keys that are neither str nor bytes
+        r = s.new_ref(engine.lat.id("CaselessDict"), "converted")
+        s.assume(E.cls_of(r) == engine.lat.id("CaselessDict"))
+        s.ghost = dict(s.ghost)
+        s.ghost[("converted", str(r))] = engine.box(args[0], s)
+        s2, s3 = s.fork(), s.fork()
+        return [(s, E.VRef(r)), (s2, E.VExc("AttributeError", "key")), (s3, E.VExc("TypeError", "key"))]
+    eng.contracts["new:CaselessDict"] = new_caseless
+
+    def items2(engine, s, args, kw):
+        o = args[0]
+        if isinstance(o, E.VMap):
+            return [(s, VItems(s.heap[o.addr].arr))]
+        src = s.ghost.get(("converted", str(o.z)))
+        if src is not None:
+            return [(s, VItems(upper_content(src)))]
+        return [(s, VItems(other_arr))]
+    eng.contracts["CaselessDict.items"] = items2
+    eng.contracts["ref.items"] = items2
+    eng.globals["Mapping"] = E.VClass("Mapping")
+    eng.globals["CaselessDict"] = E.VClass("CaselessDict")
+    obs = []
+    try:
+        st = E.State()
+        m = E.MapObj.fresh("self", cls="CaselessDict")
+        addr = st.alloc(m)
+        st.assume(E.map_wf(m))
+        paths = eng.run(node, dict(eng.globals, self=E.VMap(addr), other=E.VRef(other)), st)
+        me = m.ref
+        res = lambda pa: eng.truth(pa.value, pa.state)
+        is_map = L.isinstance_z(other, ["Mapping"])
+        is_cd = L.isinstance_z(other, ["CaselessDict"])
+        obs.append(compare.raises_only(eng, f"{PID}.__eq__.never_fails", fn, lines, paths, [], T))
+        obs.append(compare.ensures(eng, f"{PID}.__eq__.reflexive_by_identity", fn, lines, paths, lambda pa: z3.Implies(other == me, res(pa)), T))
+        obs.append(compare.ensures(eng, f"{PID}.__eq__.False_for_anything_that_is_not_a_mapping", fn, lines, paths,
+                                   lambda pa: z3.Implies(z3.And(other != me, z3.Not(is_map)), z3.Not(res(pa))), T))
+        obs.append(compare.ensures(eng, f"{PID}.__eq__.two_caseless_maps_are_equal_iff_their_contents_are_equal_dicts", fn, lines, paths,
+                                   lambda pa: z3.Implies(z3.And(other != me, is_cd), res(pa) == dict_eq(pa.state.heap[addr].arr, other_arr)), T))
+        obs.append(compare.ensures(eng, f"{PID}.__eq__.a_plain_mapping_is_compared_by_its_upper_cased_content", fn, lines, paths,
+                                   lambda pa: z3.Implies(z3.And(other != me, is_map, z3.Not(is_cd), res(pa)),
+                                                         dict_eq(pa.state.heap[addr].arr, upper_content(other))), T))
+        obs.append(compare.ensures(eng, f"{PID}.__eq__.leaves_the_map_unchanged", fn, lines, paths, lambda pa: E.same_view(pa.state.heap[addr], m), T))
+    except E.Undecided as u:
+        obs.append(Obligation(f"{PID}.__eq__", fn, "z3", UNDECIDED, detail=f"outside subset: {u}", lines=lines))
+    finally:
+        if saved_dict is None:
+            E.BUILTINS.pop("dict", None)
+        else:
+            E.BUILTINS["dict"] = saved_dict
+    return obs
+
+
 def K_native(k):
     from icalendar.parser_tools import to_unicode
     return to_unicode(k).upper()
@@ -377,6 +481,22 @@ def run(rep: common.Report):
             else:
                 ob.replay = {"confirmed": False, "native": "no failing input in the small native domain"}
         rep.add(ob)
+    try:
+        for ob in eq_obligations(rep, rep.tier):
+            if ob.status == REFUTED:
+                from props import C17_bnd as _b
+                bb = Bounded("s", "", "")
+                _b.run_sequences(bb, "quick", 0)
+                if bb.failures:
+                    ob.witness, ob.replay = bb.failures[0]["witness"], {"confirmed": True, "native": bb.failures[0]["detail"]}
+                else:
+                    ob.status = UNDECIDED
+                    ob.detail += " -- not confirmed natively"
+            rep.add(ob)
+    except Exception as e:  # noqa
+        import traceback
+        traceback.print_exc()
+        rep.add(Obligation(f"{PID}.__eq__", "caselessdict:CaselessDict.__eq__", "z3", ERROR, detail=repr(e)))
     rep.extra["solver_seconds_path_pruning"] = round(eng.solver_time, 3)
     rep.explanation = __doc__
     # assumed-contract cross-checks (a failure is a checker error, exit 3, never a violation)
